@@ -227,3 +227,17 @@ Proof.
   apply (order_limit_unique zrow (lex_leb keys) (lex_total keys) (lex_trans keys) (width n)); auto.
   intros a b Ha Hb. apply (lex_antisym keys n Hc); auto.
 Qed.
+
+(* LIMIT only truncates: the first k rows of the unlimited result, and of the result under any larger limit.
+   A reader of a limited predicate therefore sees a prefix of what the same predicate holds with a larger or
+   no limit, in the same order. *)
+Theorem rows_limit_is_prefix : forall keys k rows,
+  order_limit_rows keys (Some k) rows = firstn k (order_limit_rows keys None rows).
+Proof. reflexivity. Qed.
+
+Theorem rows_limit_monotone : forall keys k k' rows, k <= k' ->
+  order_limit_rows keys (Some k) rows = firstn k (order_limit_rows keys (Some k') rows).
+Proof.
+  intros keys k k' rows H. unfold order_limit_rows, order_limit.
+  rewrite firstn_firstn. rewrite (Nat.min_l k k' H). reflexivity.
+Qed.
